@@ -433,7 +433,13 @@ func (v *Value) IterateOrder(fn func(idx, count int, key, value *Value) bool, em
 
 		itemCount := v.getResolvedValue().Len()
 		for i := 0; i < itemCount; i++ {
-			items = append(items, &Value{val: v.getResolvedValue().Index(i)})
+			item := v.getResolvedValue().Index(i)
+			if item.Kind() == reflect.Interface {
+				// Unwrap interface items (e.g. of an in-template array) so
+				// that sorting sees their concrete kind
+				item = item.Elem()
+			}
+			items = append(items, &Value{val: item})
 		}
 
 		if sorted {
